@@ -119,7 +119,14 @@ func (s *ftpService) Handle(ctx context.Context, conn net.Conn) error {
 	// when the session ends so that its reader goroutine exits
 	recv := make(chan string)
 
-	ftpConn := s.server.newConn(conn, s.driver, recv)
+	// every session gets its own working directory on the shared filesystem root
+	driver := s.driver
+	if fs, ok := driver.(*Fs); ok && fs.Htfs != nil {
+		h := *fs.Htfs
+		driver = NewFileDriver(&h)
+	}
+
+	ftpConn := s.server.newConn(conn, driver, recv)
 
 	go func() {
 		for msg := range recv {
